@@ -98,6 +98,8 @@ type c13env struct {
 	blank map[core.TractserverID]bool
 	fail  map[string]bool
 	rank  map[string]int
+	// tractserver-side fault injection (one failing CtlRead / CtlWrite)
+	tsFault c13fault
 }
 
 func c13addr(i int) string { return fmt.Sprintf("ts:%d", i) }
@@ -113,9 +115,30 @@ func (e *c13env) note(addr string, id core.TractID) {
 // --- tractserver <-> tractserver (tractserver.TractserverTalker)
 type c13tsTT struct{ e *c13env }
 
+// c13fault makes ONE kind of tractserver-to-tractserver call fail: the CtlRead from (or CtlWrite to) addr at piece
+// offset off, i.e. in one chosen increment of an RSEncode.
+type c13fault struct {
+	active bool
+	write  bool
+	addr   string
+	off    int64
+	hits   int
+}
+
+func (t c13tsTT) faulted(write bool, addr string, id core.TractID, off int64) bool {
+	t.e.mu.Lock()
+	defer t.e.mu.Unlock()
+	f := &t.e.tsFault
+	if f.active && c13isRS(id) && f.write == write && f.addr == addr && f.off == off {
+		f.hits++
+		return true
+	}
+	return false
+}
+
 func (t c13tsTT) CtlRead(ctx context.Context, addr string, id core.TractID, version int, length int, off int64) ([]byte, core.Error) {
 	s := t.e.stores[addr]
-	if s == nil {
+	if s == nil || t.faulted(false, addr, id, off) {
 		return nil, core.ErrRPC
 	}
 	return s.Read(ctx, id, version, length, off)
@@ -129,6 +152,9 @@ func (t c13tsTT) CtlWrite(ctx context.Context, addr string, id core.TractID, v i
 	}
 	if !c13isRS(id) {
 		return core.ErrInvalidArgument
+	}
+	if t.faulted(true, addr, id, off) {
+		return core.ErrRPC
 	}
 	t.e.note(addr, id)
 	cp := append([]byte(nil), b...)
@@ -856,7 +882,7 @@ func c13stripe(tr *vw.Trace, e *c13env, r *vw.Rng, id string, big bool) {
 	}
 	extra := r.PickInt(0, 0, 0, 1, 100, 4000)
 	target := k*P + extra
-	inc := r.PickInt(target, target+1, target-1, (target+1)/2, P, 100000, 30011, 4<<20)
+	inc := r.PickInt(target, target+1, target-1, (target+1)/2, (target+2)/3, P, 100000, 30011, 30011, 4<<20)
 	e.setIncrement(inc)
 	e.mu.Lock()
 	e.target = target
@@ -1326,27 +1352,38 @@ func c13stripe(tr *vw.Trace, e *c13env, r *vw.Rng, id string, big bool) {
 		var blank, fail []core.TractserverID
 		tag := "reconstruct"
 		lost := 0
-		switch r.Intn(6) {
+		allBlank := false
+		switch r.Intn(8) {
 		case 0: // only the direct piece is gone
 		case 1, 2: // exactly n left
 			lost = m - 1
 		case 3:
 			lost = r.Intn(m)
+		case 4, 5:
+			// too many gone, and gone SILENTLY: the curator has no address for them (host "" in the pointer, e.g.
+			// tractservers that have not heartbeated since a failover); every piece that is asked answers cleanly,
+			// so no request ever fails -- the read must still fail closed
+			lost = m + r.Intn(2)
+			allBlank = true
+			tag = "reconstruct-too-few"
 		default: // too many gone: fewer than n responders
 			lost = m + r.Intn(2)
 			tag = "reconstruct-too-few"
 		}
 		for i := 0; i < lost; i++ {
-			if r.Chance(1, 3) {
+			if allBlank || r.Chance(1, 3) {
 				blank = append(blank, others[pm[i]])
 			} else {
 				fail = append(fail, others[pm[i]])
 			}
 		}
-		if r.Chance(1, 4) {
+		if r.Chance(1, 4) || (allBlank && r.Chance(1, 2)) {
 			blank = append(blank, ptr.TSID)
 		} else {
 			fail = append(fail, ptr.TSID)
+		}
+		if allBlank {
+			vw.Stat("read/reconstruct-too-few-no-address", 1)
 		}
 		var order []core.TractserverID
 		for _, i := range r.Perm(len(hosts)) {
@@ -1467,13 +1504,25 @@ func c13stripe(tr *vw.Trace, e *c13env, r *vw.Rng, id string, big bool) {
 		if si.pieces == nil {
 			continue
 		}
-		// ---- Store.RSEncode with an arbitrary choice of n source pieces and destination map
-		for q := 0; q < vw.Scale(2, 4); q++ {
+		// ---- Store.RSEncode called directly: reconstruction with an arbitrary choice of n source pieces and
+		// destination map, or plain encoding (no index map), optionally with ONE failing CtlRead / CtlWrite in a
+		// chosen increment (first, a middle one, the last): the call must return the error (fail closed) -- it may
+		// only return NoError if every destination piece is byte for byte the expected piece.
+		for q := 0; q < vw.Scale(4, 8); q++ {
+			encodeMode := q%4 == 1
 			pm := r.Perm(n + m)
 			srcIdx := append([]int(nil), pm[:n]...)
 			dstIdx := append([]int(nil), pm[n:]...)
 			if r.Chance(1, 2) {
 				sort.Ints(srcIdx)
+			}
+			if encodeMode {
+				for i := range srcIdx {
+					srcIdx[i] = i
+				}
+				for i := range dstIdx {
+					dstIdx[i] = n + i
+				}
 			}
 			var scratch []string
 			inUse := map[core.TractserverID]bool{}
@@ -1496,6 +1545,9 @@ func c13stripe(tr *vw.Trace, e *c13env, r *vw.Rng, id string, big bool) {
 				nonzero[i] = 1
 				switch r.Intn(5) {
 				case 0:
+					if encodeMode {
+						break
+					}
 					dstIdx[i] = -1
 					if r.Chance(1, 2) {
 						dests[i] = core.TSAddr{}
@@ -1506,49 +1558,113 @@ func c13stripe(tr *vw.Trace, e *c13env, r *vw.Rng, id string, big bool) {
 					nonzero[i] = 0
 				}
 			}
-			imap := append(append([]int(nil), srcIdx...), dstIdx...)
+			var imap []int
+			if !encodeMode {
+				imap = append(append([]int(nil), srcIdx...), dstIdx...)
+			}
+			written := func(i int) bool { return nonzero[i] == 1 && dstIdx[i] >= 0 }
+			// the fault
+			ninc := (target + inc - 1) / inc
+			fkind, fslot, finc := 0, 0, 0
+			if q >= 2 || r.Chance(1, 3) {
+				finc = r.PickInt(0, ninc-1, ninc-1, r.Intn(ninc))
+				fkind = 1 + r.Intn(2)
+				if fkind == 2 {
+					var ws []int
+					for i := range dests {
+						if written(i) {
+							ws = append(ws, i)
+						}
+					}
+					if len(ws) == 0 {
+						fkind = 1
+					} else {
+						fslot = ws[r.Intn(len(ws))]
+					}
+				}
+				if fkind == 1 {
+					fslot = r.Intn(n)
+				}
+				e.mu.Lock()
+				e.tsFault = c13fault{active: true, write: fkind == 2, off: int64(finc) * int64(inc)}
+				if fkind == 2 {
+					e.tsFault.addr = dests[fslot].Host
+				} else {
+					e.tsFault.addr = srcs[fslot].Host
+				}
+				e.mu.Unlock()
+			}
 			wl := r.Range(1, 32)
 			woff := int64(r.Intn(target - wl + 1))
 			exec := e.stores[scratch[len(scratch)-1]]
 			rerr := exec.RSEncode(c13bg, si.base, target, srcs, dests, imap)
+			e.mu.Lock()
+			hits := e.tsFault.hits
+			e.tsFault = c13fault{}
+			e.mu.Unlock()
 			op := vw.L{41, int64(s), woff, int64(wl), int64(len(imap))}
 			op.AddInt(imap...)
 			op.AddInt(m)
 			op.Add(nonzero...)
+			op.AddInt(inc, fkind, fslot, finc)
 			tr.Op(op...)
-			vw.Stat("tsreconstruct/custom-map", 1)
+			switch {
+			case fkind != 0:
+				vw.Stat(fmt.Sprintf("tsreconstruct/fault-kind=%d-inc=%s", fkind, map[bool]string{true: "first", false: "later"}[finc == 0]), 1)
+			case encodeMode:
+				vw.Stat("tsreconstruct/encode-direct", 1)
+			default:
+				vw.Stat("tsreconstruct/custom-map", 1)
+			}
+			// read back what the destinations hold
+			got := make([][]byte, m)
+			have := make([]bool, m)
+			allGood := true
+			for i := range dests {
+				var err core.Error = core.ErrNoSuchTract
+				if dests[i].Host != "" && dstIdx[i] >= 0 {
+					got[i], err = e.stores[dests[i].Host].Read(c13bg, si.base.Add(dstIdx[i]).ToTractID(), core.RSChunkVersion, target+10, 0)
+				}
+				have[i] = err == core.NoError || err == core.ErrEOF
+				if written(i) && !(have[i] && bytes.Equal(got[i], si.pieces[dstIdx[i]])) {
+					allGood = false
+				}
+			}
 			if rerr != core.NoError {
 				tr.Obs(2)
-				vw.Report(vw.Violation{Property: c13prop, Signature: "reconstruct/rsencode-failed-with-n-good-sources",
-					What: "Store.RSEncode failed although n good source pieces were given", Case: id,
-					Detail: map[string]interface{}{"err": rerr.String(), "imap": imap}})
+				if fkind == 0 {
+					vw.Report(vw.Violation{Property: c13prop, Signature: "reconstruct/rsencode-failed-with-n-good-sources",
+						What: "Store.RSEncode failed although n good source pieces were given", Case: id,
+						Detail: map[string]interface{}{"err": rerr.String(), "imap": imap}})
+				}
 			} else {
+				// MONITOR fail closed: success may only be reported if every destination piece is exact
+				if fkind != 0 && hits > 0 && !allGood {
+					vw.Report(vw.Violation{Property: c13prop, Signature: fmt.Sprintf("fail-closed/rsencode-ok-after-failed-%s", map[int]string{1: "read", 2: "write"}[fkind]),
+						What: "an increment of RSEncode failed (source read or destination write) but RSEncode returned NoError with missing or truncated destination pieces", Case: id,
+						Detail: map[string]interface{}{"increment": finc, "of": ninc, "inc": inc, "target": target, "imap": imap, "encode": encodeMode}})
+				}
 				obs := vw.L{0}
 				for i := range dests {
-					var b []byte
-					var err core.Error = core.ErrNoSuchTract
-					if dests[i].Host != "" && dstIdx[i] >= 0 {
-						b, err = e.stores[dests[i].Host].Read(c13bg, si.base.Add(dstIdx[i]).ToTractID(), core.RSChunkVersion, target+10, 0)
-					}
-					if err != core.NoError && err != core.ErrEOF {
+					if !have[i] {
 						obs.Add(0)
-						if nonzero[i] == 1 && dstIdx[i] >= 0 {
+						if written(i) && fkind == 0 {
 							vw.Report(vw.Violation{Property: c13prop, Signature: "reconstruct/piece-not-written",
 								What: "RSEncode did not write a requested destination piece", Case: id})
 						}
 						continue
 					}
 					obs.Add(1)
-					if len(b) >= int(woff)+wl {
-						c13bytes(&obs, b[woff:int(woff)+wl])
+					if len(got[i]) >= int(woff)+wl {
+						c13bytes(&obs, got[i][woff:int(woff)+wl])
 					}
 					if nonzero[i] == 0 {
 						vw.Report(vw.Violation{Property: c13prop, Signature: "reconstruct/wrote-to-disabled-destination",
 							What: "RSEncode wrote a piece to a destination whose id is 0", Case: id})
-					} else if !bytes.Equal(b, si.pieces[dstIdx[i]]) {
+					} else if fkind == 0 && !bytes.Equal(got[i], si.pieces[dstIdx[i]]) {
 						vw.Report(vw.Violation{Property: c13prop, Signature: "reconstruct/piece-differs-from-original",
-							What: "a piece rebuilt by RSEncode from n arbitrary good pieces is not byte for byte the original piece", Case: id,
-							Detail: map[string]interface{}{"piece": dstIdx[i], "imap": imap, "n": n, "m": m}})
+							What: "a piece produced by RSEncode from n good pieces is not byte for byte the original piece", Case: id,
+							Detail: map[string]interface{}{"piece": dstIdx[i], "imap": imap, "n": n, "m": m, "encode": encodeMode}})
 					}
 				}
 				tr.Obs(obs...)
